@@ -271,15 +271,22 @@ def expr_tokens(e, ctx=0):
     raise ValueError(k)
 
 
+FULL_PAREN = [False]     # C10: parenthesise every binary / unary sub-expression (redundant parentheses)
+
+
 def wrap(toks, level, ctx):
-    if level < ctx:
+    if level < ctx or (FULL_PAREN[0] and level <= UNARY):
         return [Tok("(")] + toks + [Tok(")")]
     return toks
 
 
-def paren_all(e):
-    """Same expression with every binary/unary sub-expression parenthesised (C10)."""
-    return e
+def tokens_full_paren(body):
+    """Tokens of the program with every binary / unary sub-expression parenthesised (C10)."""
+    FULL_PAREN[0] = True
+    try:
+        return tokens(body)
+    finally:
+        FULL_PAREN[0] = False
 
 
 def stmt_tokens(s, depth, out):
@@ -350,7 +357,7 @@ def tokens(body):
 
 
 # ---------------------------------------------------------------- layout
-def layout(toks, sep=None):
+def layout(toks, sep=None, inner=None, final="\n"):
     """Joins tokens into source text.  `sep(i, tok)` gives the separator written BEFORE token i
     (default: newline + indentation before statements / `end`, one space elsewhere).
     Returns (source, maps) where maps = {"stmt": {id: byte offset}, "decl": {label: byte offset},
@@ -380,10 +387,53 @@ def layout(toks, sep=None):
         for (tag, v) in t.tags:
             if tag in maps:
                 maps[tag][v] = pos
-        parts.append(t.text)
-        pos += len(t.text.encode())
-    parts.append("\n")
+        text = t.text if (inner is None or not t.words) else inner.join(t.words)
+        parts.append(text)
+        pos += len(text.encode())
+    parts.append(final)
     return "".join(parts), maps
+
+
+PUNCT = "()[],."
+
+
+def empty_ok(prev, nxt):
+    """May two adjacent token texts be written with nothing between them?  (= LexLayout!EmptyOk)"""
+    if not prev or not nxt:
+        return True
+    a, b = prev[-1], nxt[0]
+    if prev[0].isdigit() and b == ".":
+        return False
+    return a in PUNCT or b in PUNCT or a == '"' or b == '"'
+
+
+def layouts(toks, rnd, k_random=2):
+    """Token-preserving re-layouts of a program: list of (name, source)."""
+    out = []
+    const = lambda s: (lambda i, t: "" if i == 0 else s)
+    out.append(("pretty", layout(toks)[0]))
+    out.append(("single-line", layout(toks, const(" "), final="")[0]))
+    out.append(("token-per-line", layout(toks, const("\n"))[0]))
+    out.append(("crlf", layout(toks)[0].replace("\n", "\r\n")))
+    out.append(("cr-only", layout(toks, const("\r"), final="\r")[0]))
+    out.append(("tabs", layout(toks, const("\t"), inner="\t")[0]))
+    out.append(("comment-lf", layout(toks, const(" # c , ( \"\n"), final=" # end")[0]))
+    out.append(("comment-cr", layout(toks, const(" #x\r"), inner=" ")[0]))
+    out.append(("comment-crlf", layout(toks, const("\t# if to say\r\n"))[0]))
+    out.append(("keywords-split", layout(toks, inner="\n")[0]))
+    out.append(("keywords-split-wide", layout(toks, const("  "), inner="\t\r\n  ")[0]))
+    out.append(("tight", layout(toks, lambda i, t: "" if i == 0 or empty_ok(toks[i - 1].text, t.text) else " ")[0]))
+    seps = [" ", "\n", "\r\n", "\t", "  ", " # k\n", "#\r", "\r", "\n\n", ""]
+    for j in range(k_random):
+        def sep(i, t):
+            if i == 0:
+                return ""
+            s = rnd.choice(seps)
+            if s == "" and not empty_ok(toks[i - 1].text, t.text):
+                s = " "
+            return s
+        out.append(("random-%d" % j, layout(toks, sep, inner=rnd.choice([" ", "\n", "\t \r\n"]))[0]))
+    return out
 
 
 def render(body, sep=None):
